@@ -43,6 +43,7 @@ class Unit(object):
         self.result = result                 # value spec of the result (for call-by-contract)
         self.callee_units = callee_units or {}   # (class, method) -> Unit : call sites use that unit's contract
         self.defaults = {}
+        self.properties = {}                     # (class, attribute) -> fn(executor, ref, state) -> value  (Python properties)
         self.special_factories = []              # [executor -> {name: special form}] (lemma instantiation forms)
         self.exit_ghost = ""                     # ghost code run at every normal exit (with `result`) before the ensures
         self.var_kinds = {}                      # program variables whose dynamic type changes (int <-> str): kept as PyVal
@@ -460,6 +461,8 @@ class Executor(EvalMixin, MethodsMixin, ExecMixin):
                 else:
                     cols[fld] = ("val", k, None, z3.Array(fresh_name("%s_%s" % (nm, fld)), IntS, SORTS[k]))
             return st.alloc(HRecList(n, cols))
+        if spec[0] == "clistdict":
+            return st.alloc(HDict(items=dict((k, self.make_value(v, st, nm + "_" + k)) for k, v in spec[1].items())))
         if spec[0] == "obj":
             f = dict((k, self.make_value(v, st, nm + "_" + k)) for k, v in spec[2].items())
             return st.alloc(HObj(spec[1], f))
